@@ -231,7 +231,23 @@ class ClckEngine:
 		nd = sum(1 for _, k, _kw in sim.history if k == "tick")
 		if durs:
 			res.faults["handler-duration"] = sum(1 for k in durs if k < nd)
-		res.digest = digest_of(sim.history)
+		# in which order one tick serves different links is not observable (an implementation may
+		# keep them in a set ordered by object address): canonical order for the digest
+		canon = []
+		run = []
+		for ev in sim.history:
+			if ev[1] == "ind" and (not run or run[-1][0] == ev[0]):
+				run.append(ev)
+				continue
+			if run:
+				canon.extend(sorted(run, key=lambda e: e[2]["link"]))
+				run = []
+			if ev[1] == "ind":
+				run.append(ev)
+			else:
+				canon.append(ev)
+		canon.extend(sorted(run, key=lambda e: e[2]["link"]))
+		res.digest = digest_of(canon)
 		res.choices = {"picks": pol.picks_out}
 		shape = [(k, kw.get("op"), kw.get("late", 0) > 0 if k == "wait-enter" else None)
 			for _, k, kw in sim.history if k in ("ctl", "ind")]
